@@ -69,6 +69,20 @@ def run_gen(group, gname, tier, wd, seed):
             out.append(h)
     return out, res
 
+def run_enum(en, ename, tier, wd):
+    """Every behaviour of a small driver-only configuration, by breadth-first search."""
+    t = configs.TIERS[tier]
+    consts = dict(en["consts"])
+    consts["Budget"] = t["enum_budget"]
+    consts["MaxOps"] = t["enum_budget"]
+    cfg = os.path.join(wd, "Enum_%s.cfg" % ename)
+    tlc.write_cfg(cfg, "GSpec", consts, invariants=["NoViol", "Emitted"], subst=en["subst"])
+    res = tlc.run("Gen.tla", cfg, os.path.join(wd, "enum_" + ename), workers=8, timeout=t["enum_timeout"])
+    if res.error:
+        raise ToolError("TLC error while enumerating %s:\n%s" % (ename, res.error))
+    hists = list(progs.parse_replay_lines(res.stdout))
+    return hists, res, consts
+
 def harness_replay(programs, wd, name):
     inp = os.path.join(wd, name + ".progs.ndjson")
     outp = os.path.join(wd, name + ".obs.ndjson")
@@ -89,8 +103,24 @@ def harness_random(gencfg, seed, n, wd, name):
         raise ToolError("harness random failed: " + p.stdout[-2000:])
     return [json.loads(l) for l in open(outp)]
 
-def trace_props(records, wd, name, timeout):
-    """records: [{id, stream}] -> list of violations [{id, p, why, l}] (l = line in the concatenated trace)."""
+def _chunks(records, n):
+    """Split records into at most n chunks of nearly equal total stream length (whole programs only)."""
+    total = sum(len(r["stream"]) + 1 for r in records)
+    n = max(1, min(n, total // 20000 + 1))       # a TLC process costs ~3 s to start: no more chunks than worth it
+    target = max(1, total // n + 1)
+    out, cur, size = [], [], 0
+    for r in records:
+        cur.append(r)
+        size += len(r["stream"]) + 1
+        if size >= target and len(out) < n - 1:
+            out.append(cur)
+            cur, size = [], 0
+    if cur:
+        out.append(cur)
+    return out
+
+def _trace_props_one(args):
+    records, wd, name, timeout = args
     trace = os.path.join(wd, name + ".trace.ndjson")
     verdict = os.path.join(wd, name + ".verdict.json")
     if os.path.exists(verdict):
@@ -105,21 +135,33 @@ def trace_props(records, wd, name, timeout):
                 nrec += 1
     cfg = os.path.join(tlc.SPEC, "TraceProps.cfg")
     res = tlc.run("TraceProps.tla", cfg, os.path.join(wd, "tp_" + name), workers=1, timeout=timeout,
-                  env={"TRACE": trace, "OUT": verdict}, heap="8g")
+                  env={"TRACE": trace, "OUT": verdict}, heap="3g")
     if not os.path.exists(verdict):
-        raise ToolError("TraceProps produced no verdict (%s):\n%s" % ("timeout" if res.timed_out else "error", res.stdout[-3000:]))
+        return ("error", "TraceProps produced no verdict (%s):\n%s" % ("timeout" if res.timed_out else "error", res.stdout[-3000:]))
     v = json.load(open(verdict))
     if v["consumed"] != nrec:
-        raise ToolError("TraceProps consumed %d of %d records" % (v["consumed"], nrec))
-    return v["violations"], nrec
+        return ("error", "TraceProps consumed %d of %d records" % (v["consumed"], nrec))
+    return ("ok", v["violations"], nrec)
 
-def trace_conf(records, cfgrec, wd, name, timeout, max_restarts=6):
-    """Validate recorded streams as behaviours of Cobweb.tla. Returns (accepted ids, rejected [(id, record index)])."""
-    consts = configs.C(NSys=len(cfgrec["kinds"]), NOnce=cfgrec.get("nonce", 0), NW=cfgrec.get("nworld", 0), NER=cfgrec.get("neworld", 0),
-                       NEnt=cfgrec.get("nent", 1), NTy=2, NVal=2, MaxOps=0, Budget=0,
-                       MaxSteps=0, StepKinds=set(), Scripted=True)
-    cfg = os.path.join(wd, "TC_%s.cfg" % name)
-    tlc.write_cfg(cfg, "TCSpec", consts, constraints=["Progress"], postconditions=["Report"], subst=dict(Bundles="NoSetTC", InitOps="NoOps"))
+PAR = 8
+
+def trace_props(records, wd, name, timeout):
+    """records: [{id, stream}] -> (violations [{id, p, why, l}], number of records). Runs PAR TLC processes on chunks."""
+    from concurrent.futures import ThreadPoolExecutor
+    chunks = _chunks(records, PAR)
+    jobs = [(c, wd, "%s_c%d" % (name, i), timeout) for i, c in enumerate(chunks)]
+    with ThreadPoolExecutor(max_workers=PAR) as ex:
+        results = list(ex.map(_trace_props_one, jobs))
+    viol, nrec = [], 0
+    for r in results:
+        if r[0] == "error":
+            raise ToolError(r[1])
+        viol += r[1]
+        nrec += r[2]
+    return viol, nrec
+
+def _trace_conf_one(args):
+    records, cfg, wd, name, timeout, max_restarts = args
     accepted, rejected = [], []
     todo = list(records)
     restarts = 0
@@ -133,9 +175,9 @@ def trace_conf(records, cfgrec, wd, name, timeout, max_restarts=6):
                 f.write(json.dumps({"id": str(r["id"]), "prog": {"steps": r["program"]["steps"], "scripts": r["program"]["scripts"]},
                                     "stream": r["stream"]}) + "\n")
         res = tlc.run("TraceConf.tla", cfg, os.path.join(wd, "tc_" + name), workers=1, timeout=timeout,
-                      env={"PROGS": pfile, "OUT": out}, heap="8g")
+                      env={"PROGS": pfile, "OUT": out}, heap="3g")
         if not os.path.exists(out):
-            raise ToolError("TraceConf produced no report (%s):\n%s" % ("timeout" if res.timed_out else "error", res.stdout[-3000:]))
+            return ("error", "TraceConf produced no report (%s):\n%s" % ("timeout" if res.timed_out else "error", res.stdout[-3000:]))
         rep = json.load(open(out))
         pi, l, fin = rep["pi"], rep["l"], rep["fin"]
         accepted += [r["id"] for r in todo[:pi - 1]]
@@ -149,7 +191,29 @@ def trace_conf(records, cfgrec, wd, name, timeout, max_restarts=6):
             if restarts >= max_restarts:
                 rejected += [(r["id"], -1) for r in todo]   # not examined
                 todo = []
-    return accepted, rejected
+    return ("ok", accepted, rejected)
+
+def trace_conf(records, cfgrec, wd, name, timeout, max_restarts=4):
+    """Validate recorded streams as behaviours of Cobweb.tla. Returns (accepted ids, rejected [(id, record index)])."""
+    from concurrent.futures import ThreadPoolExecutor
+    consts = configs.C(NSys=len(cfgrec["kinds"]), NOnce=cfgrec.get("nonce", 0), NW=cfgrec.get("nworld", 0), NER=cfgrec.get("neworld", 0),
+                       NEnt=cfgrec.get("nent", 1), NTy=2, NVal=2, MaxOps=0, Budget=0,
+                       MaxSteps=0, StepKinds=set(), Scripted=True)
+    cfg = os.path.join(wd, "TC_%s.cfg" % name)
+    tlc.write_cfg(cfg, "TCSpec", consts, constraints=["Progress"], postconditions=["Report"], subst=dict(Bundles="NoSetTC", InitOps="NoOps"))
+    if not records:
+        return [], []
+    chunks = _chunks(records, PAR)
+    jobs = [(c, cfg, wd, "%s_c%d" % (name, i), timeout, max_restarts) for i, c in enumerate(chunks)]
+    with ThreadPoolExecutor(max_workers=PAR) as ex:
+        results = list(ex.map(_trace_conf_one, jobs))
+    acc, rej = [], []
+    for r in results:
+        if r[0] == "error":
+            raise ToolError(r[1])
+        acc += r[1]
+        rej += r[2]
+    return acc, rej
 
 # ----------------------------------------------------------------------------------------------------------------
 
@@ -179,20 +243,24 @@ def check_property(prop, tier, seed):
         group = configs.GROUPS[gname]
         g = dict()
         # (a) model check
-        mc, consts = run_mc(group, gname, tier, wd, seed)
-        if mc.error:
-            raise ToolError("TLC error in model check of group %s:\n%s" % (gname, mc.error))
-        g["mc"] = dict(distinct=mc.distinct, generated=mc.generated, depth=mc.depth, complete=mc.complete, timed_out=mc.timed_out,
-                       wall_s=round(mc.wall, 1), constants={k: (sorted(v) if isinstance(v, (set, frozenset)) else v) for k, v in consts.items()})
-        cov["states"] += mc.distinct
-        cov["transitions"] += mc.generated
-        if not mc.complete:
-            cov["exhaustive"] = False
-        if mc.violated:
-            model_alarm = (gname, mc.violated)
-            g["mc"]["violated"] = mc.violated
+        if configs.TIERS[tier]["mc"] in group:
+            mc, consts = run_mc(group, gname, tier, wd, seed)
+            if mc.error:
+                raise ToolError("TLC error in model check of group %s:\n%s" % (gname, mc.error))
+            g["mc"] = dict(distinct=mc.distinct, generated=mc.generated, depth=mc.depth, complete=mc.complete, timed_out=mc.timed_out,
+                           wall_s=round(mc.wall, 1), constants={k: (sorted(v) if isinstance(v, (set, frozenset)) else v) for k, v in consts.items()})
+            cov["states"] += mc.distinct
+            cov["transitions"] += mc.generated
+            if not mc.complete:
+                cov["exhaustive"] = False
+            if mc.violated:
+                model_alarm = (gname, mc.violated)
+                g["mc"]["violated"] = mc.violated
         # (b) spec -> impl
-        hists, gres = run_gen(group, gname, tier, wd, seed)
+        if "gen" in group:
+            hists, gres = run_gen(group, gname, tier, wd, seed)
+        else:
+            hists, gres = [], None
         programs = []
         for i, h in enumerate(hists):
             p = progs.program_of(h)
@@ -204,13 +272,13 @@ def check_property(prop, tier, seed):
             d = progs.first_diff(h, r["stream"])
             if d >= 0:
                 drift.append((r["id"], d))
-        g["gen"] = dict(behaviours=len(hists), drift=len(drift), first_drift=drift[:3], wall_s=round(gres.wall, 1))
+        g["gen"] = dict(behaviours=len(hists), drift=len(drift), first_drift=drift[:3], wall_s=round(gres.wall, 1) if gres else 0)
         cov["behaviours_replayed"] += len(hists)
         cov["drift"] += len(drift)
         # (c) impl -> spec: random programs of the same alphabet, plus the replayed ones
         rcfg = dict(group["rnd"])
         rcfg.setdefault("cfg", {})
-        rnd = harness_random(rcfg, seed, configs.TIERS[tier]["rnd_n"], wd, gname)
+        rnd = harness_random(rcfg, seed, max(20, int(configs.TIERS[tier]["rnd_n"] * rcfg.get("rnd_scale", 1.0))), wd, gname)
         cov["random_programs"] += len(rnd)
         allrecs = obs + rnd
         viol, nrec = trace_props(allrecs, wd, gname, configs.TIERS[tier]["tp_timeout"])
@@ -239,6 +307,49 @@ def check_property(prop, tier, seed):
             if rnd:
                 cov["samples"].append({"group": gname, "program": rnd[min(3, len(rnd) - 1)]["program"]})
         cov["groups"][gname] = g
+    # (d) exhaustive enumeration of short driver sequences on the real crate
+    for ename in configs.PROP_ENUMS.get(prop, []):
+        en = configs.ENUMS[ename]
+        hists, eres, econsts = run_enum(en, ename, tier, wd)
+        e = dict(programs=len(hists), complete=eres.complete, timed_out=eres.timed_out, states=eres.distinct, wall_s=round(eres.wall, 1),
+                 constants={k: (sorted(v) if isinstance(v, (set, frozenset)) else v) for k, v in econsts.items()})
+        if eres.violated and eres.violated != "Emitted":
+            model_alarm = (ename, eres.violated)
+        programs = []
+        for i, h in enumerate(hists):
+            p = progs.program_of(h)
+            p["id"] = "%s-enum-%d" % (ename, i)
+            programs.append(p)
+        obs = harness_replay(programs, wd, ename + "_enum") if programs else []
+        nd = 0
+        okids = set()
+        for h, r in zip(hists, obs):
+            if progs.first_diff(h, r["stream"]) >= 0:
+                nd += 1
+            else:
+                okids.add(str(r["id"]))
+        viol, nrec = trace_props(obs, wd, ename + "_enum", configs.TIERS[tier]["tp_timeout"]) if obs else ([], 0)
+        byid = {str(r["id"]): r for r in obs}
+        bad_ids = set()
+        for v in viol:
+            if v["p"] != prop:
+                continue
+            k = is_known(v, known)
+            if k:
+                knownhits.setdefault(k["id"], k)
+                continue
+            violations.append((v, byid[v["id"]]))
+            bad_ids.add(v["id"])
+        e["drift"] = nd
+        cov["drift"] += nd
+        cov["records_validated"] += nrec
+        cov["behaviours_replayed"] += len(hists)
+        cov["traces_validated_against_impl"] += len(okids - bad_ids)
+        cov.setdefault("enumerated_on_impl", {})[ename] = e
+        cov["states"] += eres.distinct
+        cov["transitions"] += eres.generated
+        if not eres.complete:
+            cov["exhaustive"] = False
     # verdict
     rc = 0
     for k in knownhits.values():
